@@ -1859,7 +1859,7 @@ Octagonal_Shape<T>::max_min(const Linear_Expression& expr,
   if (marked_empty()) {
     return false;
   }
-  if (!is_universe()) {
+  {
     // We use MIP_Problems to handle constraints that are not
     // octagonal difference.
     Optimization_Mode max_min = (maximize) ? MAXIMIZATION : MINIMIZATION;
